@@ -447,7 +447,8 @@ def m7_reconstruct_block_uncles(S):
         S.witness(ctx, ob, f"{tag}_reach_block", [], is_block)
 
 
-OBLIGATIONS = [m1_extension_accessors, m2_frame_guard, m3_molecule_accessors, m4_discovery_decode_uses_verified_readers, m5_prefilled_indexes, m6_block_transactions_reply_guards, m7_reconstruct_block_uncles]
+OBLIGATIONS = [m1_extension_accessors, m2_frame_guard, m3_molecule_accessors, m4_discovery_decode_uses_verified_readers, m5_prefilled_indexes, m6_block_transactions_reply_guards]
+# m7_reconstruct_block_uncles is an unfinished draft (its transaction-slot model is incomplete: it raises alarms on the unchanged tree) and is NOT registered.
 
 _P = os.path.join(os.path.dirname(__file__), "..", "kani", "molecule", "gen_molecule.json")
 _OKFILE = os.path.join(os.path.dirname(__file__), "..", "kani", "molecule", "feasible.json")
